@@ -135,6 +135,8 @@ def pyrepr(v):
         if isinstance(v, dict):
             return 'VDict(%s)' % pyrepr(dict(dict.items(v)))
         return '%s(%s)' % (type(v).__name__, pyrepr(debase(v)))
+    if type(v) is int and v.bit_length() > 4000:
+        return hex(v)          # decimal conversion of an int this long is refused by the interpreter (int_max_str_digits)
     if isinstance(v, float):
         if v != v:
             return "float.fromhex('nan')" if struct.pack('>d', v)[0] < 0x80 else "-float.fromhex('nan')"
